@@ -7,6 +7,8 @@ Driver for the `compare` correspondence stream (C16).
                                          decimal = IEEE-754 bits of the float, N = None, E<Class> = raised)
   cmp <func> <kind> <ds> <jobs|-> <perm|->   -> mat <m> <m*m decimal bit patterns> | err <Class>
        func ∈ serial parallel allpairs containment max avg ; siglist = [sig[p] for p in perm]
+  recheck                             -> recheck <k> unchanged     (k matrices handed out so far in this case; the adapter keeps every
+                                         matrix OBJECT uncopied and compares it with the values it had when it was returned)
 -/
 import SmVerif.Model.CompareMatrix
 import SmVerif.Model.Proto
@@ -20,6 +22,8 @@ abbrev Tok := Except String (Option Nat)
 structure St where
   n : Nat := 0
   tabs : List ((String × Nat) × Array Tok) := []
+  /-- the matrices returned so far in this case (the history of the compare API): VALUES, nothing can change them -/
+  results : List (Mat Nat) := []
 
 def init : St := {}
 
@@ -113,9 +117,14 @@ def step (st : St) (line : String) : St × String :=
           | "allpairs", j => some (compareAllPairs m j cell oneBits zeroBits)
           | _, _ => none
         match r with
-        | some r => (st, showMat m r)
+        | some r =>
+          let st' := match r with
+            | .ok mat => { st with results := st.results ++ [mat] }
+            | .error _ => st
+          (st', showMat m r)
         | none => bad
     | _, _, _ => bad
+  | ["recheck"] => (st, s!"recheck {st.results.length} unchanged")
   | _ => bad
 
 end Sm.DriverCompare
